@@ -137,7 +137,8 @@ def gen_definition(rng, *, rational=True, max_states=5, max_controls=3, max_cal=
     return d
 
 
-ALL_FNS = ["sin", "cos", "tan", "exp", "sinh", "cosh", "tanh", "sec", "csc", "cot", "sech", "csch", "coth", "atan", "asinh"]
+ALL_FNS = ["sin", "cos", "tan", "exp", "sinh", "cosh", "tanh", "sec", "csc", "cot", "sech", "csch", "coth", "atan", "asinh",
+           "acot", "acsch"]
 
 
 def function_coverage_definitions():
@@ -145,12 +146,14 @@ def function_coverage_definitions():
     power of a symbol evaluated at negative values (printers that rewrite a function may also rewrite the power), with
     a non-alphabetical declaration order"""
     out = []
-    for grp in (ALL_FNS[:8], ALL_FNS[8:]):
+    for grp in (ALL_FNS[:8], ALL_FNS[8:15], ALL_FNS[15:]):
         state = [f"w_{f}" for f in grp] + ["m"]
         sm = {f"w_{f}": fn(f, mul(add(var("u"), var(f"w_{f}")), powi(add(num(1), powi(var("m"), 2)), -1))) for f in reversed(grp)}
         sm["m"] = add(var("m"), mul(var("dt"), var("c")))
+        # the inverse functions (third group) are also read by the sensor at arguments of either sign
+        z_arg = powi(var("m"), 2) if grp[0] in ALL_FNS[:15] else add(var("m"), mul(num(-1, 4), var(f"w_{grp[1]}")))
         out.append({"dt": "dt", "state": state, "control": ["u"], "calibration": ["c"], "state_model": sm,
-                    "sensors": {"gps": {"z": fn(grp[0], powi(var("m"), 2)), "alt": add(var("m"), var(f"w_{grp[1]}"))}},
+                    "sensors": {"gps": {"z": fn(grp[0], z_arg), "alt": add(var("m"), var(f"w_{grp[1]}"))}},
                     "process_noise": {"u": 0.25}, "sensor_noise": {"gps": {"z": 0.5, "alt": 1.0}},
                     "calibration_map": {"c": -0.75}, "rational": False})
     # numerically delicate but well-conditioned expressions (an algebraically "equal" rewrite such as expand() ruins them)
@@ -164,6 +167,16 @@ def function_coverage_definitions():
                 "process_noise": {"u": 0.25}, "sensor_noise": {"pitot": {"q": 0.5, "dx": 1.0}},
                 "calibration_map": {"c": 0.75}, "rational": False, "numerics": True})
     return out
+
+
+def pole_at_zero_definition():
+    """structurally valid definition whose sensor and model expressions have poles at the all-zero state (x / v, 1 / x,
+    dt / v): a compile-time trial evaluation at the default state must not turn them into a refusal"""
+    sm = {"x": add(var("x"), mul(var("dt"), var("v"))), "v": add(var("v"), mul(var("dt"), var("u"))),
+          "tau": add(var("tau"), mul(var("dt"), powi(var("v"), -1)))}
+    return {"dt": "dt", "state": ["x", "v", "tau"], "control": ["u"], "calibration": [], "state_model": sm,
+            "sensors": {"rate": {"r": mul(var("x"), powi(var("v"), -1)), "inv": powi(var("x"), -1)}},
+            "process_noise": {"u": 0.25}, "sensor_noise": {"rate": {"r": 0.5, "inv": 1.0}}, "calibration_map": {}, "rational": True}
 
 
 def large_int_calibration_definition():
